@@ -27,6 +27,8 @@ type FTask struct {
 
 // FailCase is a C09 case.
 type FailCase struct {
+	// ProjDir names the directory holding the spokfile ("" = proj)
+	ProjDir string   `json:"proj_dir,omitempty"`
 	Tasks   []FTask  `json:"tasks"`
 	Request []string `json:"request"`
 	Flags   []string `json:"flags"`
@@ -43,6 +45,12 @@ var failStatuses = []int{1, 2, 3, 42, 126, 127, 255}
 var failFlagSets = [][]string{nil, {"--quiet"}, {"--json"}, {"--force"}, {"--quiet", "--force"}, {"--json", "--force"}, {"--quiet", "--json"}, {"--json", "--quiet", "--force"}}
 
 func genFail(t *rapid.T) FailCase {
+	c := genFailBody(t)
+	c.ProjDir = genProjDir(t)
+	return c
+}
+
+func genFailBody(t *rapid.T) FailCase {
 	n := rapid.IntRange(1, 4).Draw(t, "ntasks")
 	c := FailCase{}
 	anyFail := false
@@ -149,7 +157,7 @@ func (c FailCase) failedTasks(log []string) []string {
 }
 
 func execFail(s *ev.Shard, b *sandbox.Box, c FailCase) *rp.Fail {
-	if err := b.Reset(); err != nil {
+	if err := b.ResetAs(c.ProjDir); err != nil {
 		return &rp.Fail{Sig: "harness", Msg: err.Error()}
 	}
 	src := c.source()
